@@ -135,6 +135,7 @@ type LRow struct {
 type LSection struct {
 	Kind string `json:"kind"` // top-var | top-type | top-const | struct | const | var | type
 	Rows []LRow `json:"rows"`
+	Hdr  string `json:"hdr,omitempty"` // struct and grouped kinds: a comment after the opening brace / parenthesis, on the header's line — it belongs to no declaration
 }
 
 type layoutCase struct {
@@ -176,19 +177,32 @@ func (c *layoutCase) render() (src string, model []string, decls [][]declRef) {
 			blank()
 			continue
 		case "struct":
-			fmt.Fprintf(&b, "type %s struct {\n", sname)
+			if s.Hdr != "" {
+				fmt.Fprintf(&b, "type %s struct { // %s\n", sname, s.Hdr)
+			} else {
+				fmt.Fprintf(&b, "type %s struct {\n", sname)
+			}
 			// the header line declares the struct type itself
 			model = append(model, "d", "1", "-")
 			decls = append(decls, []declRef{{obj: sname}})
 			indent = "\t"
 		case "const", "var", "type":
-			fmt.Fprintf(&b, "%s (\n", s.Kind)
+			if s.Hdr != "" {
+				fmt.Fprintf(&b, "%s ( // %s\n", s.Kind, s.Hdr)
+			} else {
+				fmt.Fprintf(&b, "%s (\n", s.Kind)
+			}
 			blank()
 			indent = "\t"
 		}
 		for _, r := range s.Rows {
 			id++
 			switch r.K {
+			case "f":
+				// a one-line function with a comment behind it: the comment belongs to no declaration the index knows, and
+				// the line is no declaration of interest — for the model an empty line
+				fmt.Fprintf(&b, "func fn%d() {} // %s\n", id, strings.Join(r.Lines, " "))
+				blank()
 			case "b":
 				b.WriteString("\n")
 				blank()
@@ -452,7 +466,7 @@ func (c *layoutCase) Oracle(out string) string {
 		}
 		for _, r := range s.Rows {
 			switch r.K {
-			case "b":
+			case "b", "f": // an empty line, or a line of code with a comment behind it that is nobody's: nothing is "directly above" any more
 				above = nil
 			case "c":
 				above = r.Lines
@@ -516,7 +530,7 @@ func (c *layoutCase) Shrinks() []Case {
 	cp := func() []LSection {
 		n := make([]LSection, len(c.Sections))
 		for i, s := range c.Sections {
-			n[i] = LSection{s.Kind, append([]LRow{}, s.Rows...)}
+			n[i] = LSection{s.Kind, append([]LRow{}, s.Rows...), s.Hdr}
 		}
 		return n
 	}
@@ -549,9 +563,15 @@ func (c *layoutCase) Shrinks() []Case {
 				out = append(out, &layoutCase{Sections: n})
 			}
 		}
+		if s.Hdr != "" {
+			n := cp()
+			n[i].Hdr = ""
+			out = append(out, &layoutCase{Sections: n})
+		}
 		if s.Kind != "top-var" && s.Kind != "linedir" {
 			n := cp()
 			n[i].Kind = "top-var"
+			n[i].Hdr = ""
 			out = append(out, &layoutCase{Sections: n})
 		}
 	}
@@ -568,13 +588,19 @@ func (c *layoutCase) Key() string {
 				rs = append(rs, "blank")
 			case "x":
 				rs = append(rs, fmt.Sprintf("target(%q:%d)", r.Lines, r.H))
+			case "f":
+				rs = append(rs, fmt.Sprintf("func%q", r.Lines))
 			case "c":
 				rs = append(rs, fmt.Sprintf("comment%q", r.Lines))
 			case "d":
 				rs = append(rs, fmt.Sprintf("decl(h=%d,trail=%q,multi=%v)", max(r.H, 1), r.Trail, r.Multi))
 			}
 		}
-		parts = append(parts, s.Kind+"{"+strings.Join(rs, " ")+"}")
+		hdr := ""
+		if s.Hdr != "" {
+			hdr = fmt.Sprintf("hdr(%q)", s.Hdr)
+		}
+		parts = append(parts, s.Kind+hdr+"{"+strings.Join(rs, " ")+"}")
 	}
 	return strings.Join(parts, " ")
 }
@@ -583,6 +609,9 @@ func (c *layoutCase) Classes() []string {
 	m := map[string]bool{}
 	for _, s := range c.Sections {
 		m["section:"+s.Kind] = true
+		if s.Hdr != "" {
+			m["comment-after-opening-brace"] = true
+		}
 		if s.Kind == "linedir" && len(s.Rows) > 0 && s.Rows[0].K == "x" && len(s.Rows[0].Lines) == 1 {
 			switch t := s.Rows[0].Lines[0]; {
 			case t == "p.go":
@@ -657,9 +686,16 @@ func genLayout(r *Rng) *layoutCase {
 			c.Sections = append(c.Sections, sec)
 		}
 		sec := LSection{Kind: Pick(r, []string{"top-var", "top-type", "top-const", "struct", "struct", "const", "var", "type"})}
+		if !strings.HasPrefix(sec.Kind, "top-") && r.Chance(30) {
+			sec.Hdr = Pick(r, []string{"settings", "+gengo:rec", "+k=v", "opens here"})
+		}
 		n := 1 + r.Intn(7)
 		for i := 0; i < n; i++ {
 			id++
+			if strings.HasPrefix(sec.Kind, "top-") && r.Chance(8) {
+				sec.Rows = append(sec.Rows, LRow{K: "f", Lines: []string{Pick(r, []string{"host only", "+gengo:rec", "+k=v"})}})
+				continue
+			}
 			switch r.Intn(5) {
 			case 0:
 				sec.Rows = append(sec.Rows, LRow{K: "b"})
@@ -731,6 +767,12 @@ func enumLayouts(yield func(*layoutCase)) {
 			yield(&layoutCase{Sections: []LSection{{Kind: kind, Rows: append([]LRow{}, rows...)}}})
 			// the same behind a line directive, with an undirected section ahead of it
 			yield(&layoutCase{Sections: []LSection{{Kind: "top-var", Rows: []LRow{{K: "c", Lines: []string{"doc 9"}}, {K: "d", H: 1, Trail: "trail 9"}}}, {Kind: "linedir"}, {Kind: kind, Rows: append([]LRow{}, rows...)}}})
+			// the header line of a struct / a group carrying a comment of its own
+			if kind != "top-var" {
+				yield(&layoutCase{Sections: []LSection{{Kind: kind, Rows: append([]LRow{}, rows...), Hdr: "+k=hdr opens"}}})
+			} else {
+				yield(&layoutCase{Sections: []LSection{{Kind: kind, Rows: append([]LRow{{K: "f", Lines: []string{"+k=fn behind a func"}}}, rows...)}}})
+			}
 			// and behind a directive that names the file itself: what follows is numbered like the top of the file (F27)
 			yield(&layoutCase{Sections: []LSection{{Kind: "top-var", Rows: []LRow{{K: "c", Lines: []string{"doc 9"}}, {K: "d", H: 1, Trail: "trail 9"}}}, {Kind: "linedir", Rows: []LRow{{K: "x", Lines: []string{"p.go"}, H: 2}}}, {Kind: kind, Rows: append([]LRow{}, rows...)}}})
 		}
@@ -789,7 +831,7 @@ func init() {
 			Name: "layout", Quick: 1600, Thorough: 12000, New: func() Case { return &layoutCase{} },
 			Gen:      func(r *Rng, i int) Case { return genLayout(r) },
 			BatchRun: layoutBatch, ShrinkBudget: 60, MaxShrinks: 6,
-			Rule: "source files of 1–3 sections (ungrouped var/type/const, struct fields, grouped const/var/type) × 1–7 rows among blank line, 1–3-line comment group (line or block comments, tag lines, go: prose), one- or three-line declaration with or without trailing comment, multi-name declarations; in about one file of three a `//line file:N` directive between two sections, naming a file of its own, a file another directive names too, the source file itself or an absolute path in another directory (what follows is then numbered like lines elsewhere); loaded with the real types.Load (400 packages per load); Doc and Comment of every declared name compared with the model on the same layout and with the layout's own ground truth; the questions about a freshly loaded package are put by four goroutines at once and all must be told the same; the package holds a second file with the same line structure under other names and with other comment texts; every name is asked twice and the harness scribbles over the first answer (lines, comment, tag map) in between: the second answer must be the same",
+			Rule: "source files of 1–3 sections (ungrouped var/type/const, struct fields, grouped const/var/type) × 1–7 rows among blank line, 1–3-line comment group (line or block comments, tag lines, go: prose), one- or three-line declaration with or without trailing comment, multi-name declarations; comments that belong to no declaration on lines that hold code (after the opening brace of a struct or the opening parenthesis of a group, behind a one-line function) directly above declarations; in about one file of three a `//line file:N` directive between two sections, naming a file of its own, a file another directive names too, the source file itself or an absolute path in another directory (what follows is then numbered like lines elsewhere); loaded with the real types.Load (400 packages per load); Doc and Comment of every declared name compared with the model on the same layout and with the layout's own ground truth; the questions about a freshly loaded package are put by four goroutines at once and all must be told the same; the package holds a second file with the same line structure under other names and with other comment texts; every name is asked twice and the harness scribbles over the first answer (lines, comment, tag map) in between: the second answer must be the same",
 		},
 		{
 			Name: "layout-enum", New: func() Case { return &layoutCase{} },
